@@ -118,6 +118,34 @@ def trace_events(tn):
     return out
 
 
+def trace_count(tn, pred):
+    """(min, max) number of events satisfying pred along the paths ending at tn"""
+    memo = {}
+    stack = [(tn, False)]
+    while stack:
+        t, done = stack.pop()
+        if t is None or id(t) in memo:
+            continue
+        if not done:
+            stack.append((t, True))
+            for p in t.preds:
+                if p is not None and id(p) not in memo:
+                    stack.append((p, False))
+            continue
+        lo, hi = None, None
+        for p in t.preds:
+            a, b = (0, 0) if p is None else memo[id(p)]
+            lo = a if lo is None else min(lo, a)
+            hi = b if hi is None else max(hi, b)
+        if lo is None:
+            lo = hi = 0
+        if t.ev is not None and pred(t.ev):
+            lo += 1
+            hi += 1
+        memo[id(t)] = (lo, hi)
+    return memo[id(tn)] if tn is not None else (0, 0)
+
+
 def trace_paths(tn, limit=20000):
     """all event sequences (lists, oldest first) ending at tn; bounded enumeration"""
     memo = {}
